@@ -397,6 +397,9 @@ def run(repo: Repo, rep, tier: str):
     rep.guarded(check_cycles, repo, rep)
     rep.guarded(check_flip, repo, rep)
     rep.guarded(check_terminate, repo, rep)
+    from props.c04 import check_update_qty_decimal
+    rep.rule("C06-R6", "position size arithmetic uses the exact-decimal helpers consistently with the closing test (no binary float += / -)")
+    rep.guarded(check_update_qty_decimal, repo, rep, "C06-R6")
     rep.undecided_item("cycles longer than the four enumerated shapes (the per-fill effect summaries of C03 are state independent, so longer cycles compose)")
 
 
